@@ -103,7 +103,14 @@ def registry_cases(tier, seed):
             r = rng.random()
             if r < 0.3:
                 hist.append(["get", rng.choice("ijab") + str(rng.randint(3, 12)), rng.choice(["", "a", "b"])])
-            elif r < 0.55:
+            elif r < 0.45:
+                # explicit request for a name of the generation that will be generated next, followed
+                # by a generic request that is large enough to generate it
+                sp_ = rng.choice(["occ", "virt", "general"])
+                sn_ = rng.choice(["", "a"])
+                hist.append(["get_future", sp_, sn_, rng.randint(0, 6)])
+                hist.append(["generic", sp_, rng.randint(8, 12), sn_])
+            elif r < 0.6:
                 # explicit request for a name that is waiting in the pool of generated names
                 hist.append(["get_pool", rng.choice(["occ", "virt", "general"]), rng.choice(["", "a"]),
                              rng.randint(0, 7)])
@@ -116,6 +123,13 @@ def registry_check(case):
     reg = Indices()
     issued = set()
     for h in case["history"]:
+        if h[0] == "get_future":
+            base = Indices.base[h[1]]
+            name = base[h[3] % len(base)] + str(reg._counter[h[1]][h[2]])
+            a = get_symbols(name, h[2] or None)[0]
+            if (a.name, a.space, a.spin) != (name, h[1], h[2]):
+                return False, f"index {a} requested by the name {name} has the wrong name / space / spin"
+            continue
         if h[0] == "get_pool":
             pool = reg._generic_indices[h[1]][h[2]]
             if not pool:
